@@ -813,8 +813,25 @@ func (r *Runner) doIter(i int, op *Op) {
 	}
 }
 
+// backupDir names the destination of backup n in one of several legal ways (op.F selects): a fresh directory, one
+// that already exists (empty), one named with a trailing separator, one whose name extends the source's ("db2-n").
+func (r *Runner) backupDir(op *Op) string {
+	n := op.N
+	switch int(op.F) {
+	case 1:
+		d := filepath.Join(r.Root, fmt.Sprintf("bk%d", n))
+		_ = vos.MkdirAll(d, 0o755)
+		return d
+	case 2:
+		return filepath.Join(r.Root, fmt.Sprintf("bk%d", n)) + string(filepath.Separator)
+	case 3:
+		return filepath.Join(r.Root, fmt.Sprintf("db2-%d", n))
+	}
+	return filepath.Join(r.Root, fmt.Sprintf("bk%d", n))
+}
+
 func (r *Runner) doBackup(op *Op) {
-	dir := filepath.Join(r.Root, fmt.Sprintf("bk%d", op.N))
+	dir := r.backupDir(op)
 	var err error
 	if !r.call("Backup", func() { err = r.DB.Backup(dir) }) {
 		return
